@@ -45,17 +45,27 @@ import (
 
 // ---------------------------------------------------------------- servers (urls)
 
+// A location is identified by its Url (the statement's "locations currently added"; removal
+// notifications name the Url too). PublicUrl and DataCenter vary independently of it: two
+// servers behind one gateway share a PublicUrl, some announce none, one re-announces itself
+// with another PublicUrl (Public2).
 type server struct {
-	Url, Public, DC string
+	Url, Public, Public2, DC string
 }
 
 var servers = []server{
-	{"10.0.0.1:8080", "pub-10.0.0.1:8080", "dc2"},
-	{"10.0.0.2:8080", "pub-10.0.0.2:8080", "dc1"},
-	{"10.0.0.3:8080", "pub-10.0.0.3:8080", ""},
-	{"10.0.0.4:8080", "pub-10.0.0.4:8080", "dc1"},
-	{"10.0.0.5:8080", "pub-10.0.0.5:8080", "dc3"},
-	{"10.0.0.6:8080", "pub-10.0.0.6:8080", "dc2"},
+	{"10.0.0.1:8080", "gateway.example:80", "gateway.example:80", "dc2"},
+	{"10.0.0.2:8080", "gateway.example:80", "gateway.example:80", "dc1"},
+	{"10.0.0.3:8080", "", "", ""},
+	{"10.0.0.4:8080", "", "late-pub-10.0.0.4:8080", "dc1"},
+	{"10.0.0.5:8080", "pub-10.0.0.5:8080", "other-pub-10.0.0.5:8080", "dc3"},
+	{"10.0.0.6:8080", "pub-10.0.0.6:8080", "pub-10.0.0.6:8080", "dc2"},
+}
+
+// entryOK: the fields of a returned Location belong to one server (not torn, not foreign).
+func entryOK(l wdclient.Location) bool {
+	si := serverIndex(l.Url)
+	return si >= 0 && (l.PublicUrl == servers[si].Public || l.PublicUrl == servers[si].Public2) && l.DataCenter == servers[si].DC
 }
 
 func serverIndex(url string) int {
@@ -169,11 +179,16 @@ type smsg struct {
 	Server int      `json:"server"`
 	New    []uint32 `json:"new,omitempty"`
 	Del    []uint32 `json:"del,omitempty"`
+	Alt    bool     `json:"alt_public_url,omitempty"` // announced with the server's other PublicUrl
 }
 
 func (m smsg) pb() *master_pb.VolumeLocation {
 	s := servers[m.Server]
-	return &master_pb.VolumeLocation{Url: s.Url, PublicUrl: s.Public, DataCenter: s.DC, NewVids: m.New, DeletedVids: m.Del}
+	pub := s.Public
+	if m.Alt {
+		pub = s.Public2
+	}
+	return &master_pb.VolumeLocation{Url: s.Url, PublicUrl: pub, DataCenter: s.DC, NewVids: m.New, DeletedVids: m.Del}
 }
 
 func (s refState) apply(m smsg) {
@@ -254,7 +269,7 @@ func (c *client) checkAll(ref refState, vids []uint32, after string, detail func
 		var urls []string
 		for _, l := range locs {
 			urls = append(urls, l.Url)
-			if si := serverIndex(l.Url); si < 0 || l.PublicUrl != servers[si].Public || l.DataCenter != servers[si].DC {
+			if !entryOK(l) {
 				viol("GetLocations", "torn-or-foreign-entry", vid, locs)
 			}
 		}
@@ -305,7 +320,7 @@ func (c *client) checkAll(ref refState, vids []uint32, after string, detail func
 func genSequence(rng *rand.Rand, vids []uint32, n int) []smsg {
 	var out []smsg
 	for i := 0; i < n; i++ {
-		m := smsg{Server: rng.Intn(len(servers))}
+		m := smsg{Server: rng.Intn(len(servers)), Alt: rng.Intn(5) == 0}
 		for _, v := range vids {
 			switch x := rng.Intn(10); {
 			case x < 5:
@@ -417,7 +432,7 @@ func (c *client) read(api string, vid uint32, yield bool) (urls []string, torn b
 		locs, _ := c.mc.GetLocations(vid)
 		for i := range locs {
 			l := locs[i]
-			if si := serverIndex(l.Url); si < 0 || l.PublicUrl != servers[si].Public || l.DataCenter != servers[si].DC {
+			if !entryOK(l) {
 				torn = true
 			}
 			urls = append(urls, l.Url)
@@ -435,7 +450,7 @@ func (c *client) read(api string, vid uint32, yield bool) (urls []string, torn b
 		locs, _ := c.mc.GetVidLocations(strconv.Itoa(int(vid)))
 		for i := range locs {
 			l := locs[i]
-			if si := serverIndex(l.Url); si < 0 || l.PublicUrl != servers[si].Public || l.DataCenter != servers[si].DC {
+			if !entryOK(l) {
 				torn = true
 			}
 			urls = append(urls, l.Url)
@@ -512,7 +527,7 @@ func (c *client) runConcurrent(runNo int, rng *rand.Rand, nReaders, nMsgs int) {
 			if rng.Intn(6) == 0 {
 				add = !add // redundant add / delete of an absent location
 			}
-			m := smsg{Server: si}
+			m := smsg{Server: si, Alt: rng.Intn(5) == 0}
 			if add {
 				m.New = []uint32{vids[vi]}
 				present[vi] |= 1 << uint(si)
@@ -886,7 +901,7 @@ func reconnectUnderLoad(r *lib.Run, self string, n int) {
 
 func main() {
 	r := lib.Start("C35", "exploration")
-	r.SetRule("a real wdclient.MasterClient fed by the harness fake master over the real KeepConnected stream. sequential: random sequences of VolumeLocation messages (1-3 volume ids, 6 servers in 4 data-center classes, several ids per message, redundant adds, deletes of absent locations), sentinel barrier, all four lookup APIs compared with a reference set + same-dc-first rule, for clients with and without a data center; concurrent: reader goroutines on all lookup APIs (walking the returned slices) during add/delete storms on 3 volume ids, every read matched against the reference state after each prefix of notifications possible between its call and return, porcupine set model on a sample; reconnect: stream dropped, map rebuilt from replay, checked again. distinct = distinct (client dc, message sequence) resp. concurrent run with its measured overlap; non-trivial = at least one lookup returned/should return locations resp. at least one read overlapped an update")
+	r.SetRule("a real wdclient.MasterClient fed by the harness fake master over the real KeepConnected stream. sequential: random sequences of VolumeLocation messages (1-3 volume ids, 6 servers identified by Url in 4 data-center classes whose PublicUrl varies independently (two share one, two have none, two re-announce themselves with another one), several ids per message, redundant adds, deletes of absent locations), sentinel barrier, all four lookup APIs compared with a reference set + same-dc-first rule, for clients with and without a data center; concurrent: reader goroutines on all lookup APIs (walking the returned slices) during add/delete storms on 3 volume ids, every read matched against the reference state after each prefix of notifications possible between its call and return, porcupine set model on a sample; reconnect: stream dropped, map rebuilt from replay, checked again. distinct = distinct (client dc, message sequence) resp. concurrent run with its measured overlap; non-trivial = at least one lookup returned/should return locations resp. at least one read overlapped an update")
 	r.Assume("the KeepConnected stream delivers messages in order and the client applies them in one goroutine (sentinel barrier; total order of notifications)")
 	r.Assume("a volume id with no remaining location may be reported as not found or as found with an empty list")
 	r.Assume("reads while the client is between two streams (map deliberately emptied) are not judged, only race reports and the state after the reconnect barrier")
